@@ -4,6 +4,7 @@
 // consistent with program order and real-time order.
 #pragma once
 #include <algorithm>
+#include <cstdio>
 #include <functional>
 #include <map>
 #include <set>
@@ -41,6 +42,15 @@ struct LinState {
   std::map<int, std::vector<int>> acc;      // per op: expectations whose 'pending' report is due (drop_mock_ref)
   std::map<int, int> refs;                  // mock -> live references
   std::map<int, std::pair<bool, bool>> q;   // per op: observed-consistent flags so far
+  // everything later sub-steps depend on (the search memoises on it)
+  uint64_t hash() const {
+    uint64_t h = M.hash();
+    auto mix = [&](long x) { h = fnv1a(h, &x, sizeof x); };
+    for (auto& kv : acc) { mix(kv.first); for (int id : kv.second) mix(id); mix(-11); }
+    for (auto& kv : refs) { mix(kv.first); mix(kv.second); }
+    for (auto& kv : q) { mix(kv.first); mix(kv.second.first); mix(kv.second.second); }
+    return h;
+  }
 };
 
 struct LinResult { int verdict = 1; /* 1 ok, 0 violation, 2 inconclusive */ std::string text; long nodes = 0; bool by_hint = true; };
@@ -49,6 +59,9 @@ class LinChecker {
  public:
   std::vector<TOp> ops;      // all operations of the concurrent phase
   int ntasks = 0;
+  bool no_hint = false;      // self-test: decide by the general search alone (SIM_LIN_NOHINT=1)
+  bool debug = false;        // replay -v: print where the search gets stuck
+  mutable int dbg_left = 60, dbg_steps = 400;
 
   static const int* destruction_order() { static const int o[NFN] = {FN_Z, FN_K, FN_S, FN_U, FN_C, FN_R, FN_G, FN_F2, FN_F1}; return o; }
 
@@ -295,6 +308,7 @@ class LinChecker {
     // ---- hint: critical-section order ----
     bool cs_usable = true;
     for (size_t i = 0; i < ops.size(); ++i) if (!ops[i].cs.empty() && ops[i].cs.size() != expected_cs(static_cast<int>(i))) cs_usable = false;  // (operations of the sequential phases carry no stamps)
+    if (no_hint) cs_usable = false;
     if (cs_usable) {
       std::vector<SubOp> all;
       for (size_t i = 0; i < ops.size(); ++i) { auto s = subops_of(static_cast<int>(i), true); all.insert(all.end(), s.begin(), s.end()); }
@@ -320,7 +334,7 @@ class LinChecker {
       for (size_t i = 0; i < ops.size(); ++i) if (nx[i] < subs[i].size()) all_done = false;
       if (all_done) return true;
       if (--budget < 0) { inconclusive = true; return false; }
-      if (!seen.insert({nx, S.M.hash()}).second) return false;
+      if (!seen.insert({nx, S.hash()}).second) { if (debug && dbg_steps > 0) std::fprintf(stderr, "  | dfs: (state seen before)\n"); return false; }
       for (size_t i = 0; i < ops.size(); ++i) {
         if (nx[i] >= subs[i].size()) continue;
         const TOp& o = ops[i];
@@ -337,7 +351,12 @@ class LinChecker {
         int v = apply(S2, subs[i][nx[i]], why);
         ++res.nodes;
         if (v == 2) { inconclusive = true; continue; }
-        if (v == 0) { if (first_why.empty()) first_why = why; continue; }
+        if (v == 0) {
+          if (first_why.empty()) first_why = why;
+          if (debug && dbg_left-- > 0) { std::fprintf(stderr, "  | dfs: after"); for (size_t q = 0; q < nx.size(); ++q) if (nx[q]) std::fprintf(stderr, " t%d#%d:%zu", ops[q].task, ops[q].idx, nx[q]); std::fprintf(stderr, " -> t%d#%d sub %zu fails: %s\n", o.task, o.idx, nx[i], why.c_str()); }
+          continue;
+        }
+        if (debug && dbg_steps-- > 0) std::fprintf(stderr, "  | dfs: step t%d#%d sub %zu ok\n", o.task, o.idx, nx[i]);
         ++nx[i];
         if (dfs(S2, nx)) return true;
         --nx[i];
